@@ -27,6 +27,10 @@ def integral_xn_exp_minus_x(n: int, a: float, b: float, alpha: float):
             n=n, a=a, b=0.0, alpha=alpha
         ) + integral_xn_exp_minus_x(n=n, a=0.0, b=b, alpha=alpha)
 
+    if b <= 0 and a < 0:
+        # negative half-line: x -> -x maps it to (-1)^n times the integral over [-b, -a]
+        return (-1) ** n * integral_xn_exp_minus_x(n=n, a=-b, b=-a, alpha=alpha)
+
     aux = alpha ** (n + 1)
 
     def helper(u):
